@@ -174,7 +174,7 @@ func c13(c *Check) {
 	}
 	c.Extra["key_families"] = names
 
-	c.Rule("C13/reader-tokenisation", "a reader that tokenises iterator keys with an unbounded strings.Split on \"/\" must not range over a family with a binary (big-endian height) component: a 0x2f byte inside the height changes the element count / positions", 6)
+	c.Rule("C13/reader-tokenisation", "a reader that tokenises iterator keys with an unbounded strings.Split on \"/\" must not range over a family with a binary (big-endian height) component: a 0x2f byte inside the height changes the element count / positions", 4)
 	tokenisationRule(c, "C13/reader-tokenisation", fams)
 
 	c.Rule("C13/genesis-fields", "every field of each module GenesisState is populated by ExportGenesis and consumed by InitGenesis (rvesting From/InitReward are init-only funding instructions, audited)", 12)
